@@ -24,21 +24,18 @@ from fractions import Fraction
 
 import numpy as np
 
-from lib import Prop, coq_q, coq_nat, coq_z, coq_bool, coq_list, load_known
+from lib import Prop, coq_q, coq_nat, coq_z, coq_bool, coq_list
 import util
 
 INF = float("inf")
-FINDING_RENORM_ZERO = "C10-renorm-zero-spectrum"
-FINDING_NORM_ROUNDING = "C10-sum-norm-rounding"
 
 IMPORTS = ("From Coq Require Import ZArith QArith List. From PTN Require Import Trunc.Select. "
            "Import ListNotations.")
 PRELUDE = """
 Definition P mb rel tot rn st sr := {| max_bond := mb; rel_tol := rel; total_tol := tot; renorm := rn; sum_trunc := st; sum_renorm := sr |}.
 Definition qz (q : Q) := (Qnum q, Zpos (Qden q)).
-Definition out (r : option (option (list Q) * list Q)) :=
-  match r with None => None
-  | Some (a, b) => Some (match a with None => None | Some l => Some (map qz l) end, map qz b) end.
+Definition out (r : option (list Q * list Q)) :=
+  match r with None => None | Some (a, b) => Some (map qz a, map qz b) end.
 Definition run (s : list Q) (g : list (mbd_arg * params)) :=
   map (fun mp => (validate (fst mp) (rel_tol (snd mp)) (total_tol (snd mp)), out (truncate (snd mp) s))) g.
 Definition klen (p : params) (s : list Q) := (length (fst (select p s)), length (snd (select p s))).
@@ -356,9 +353,9 @@ class C10(Prop):
               "incl. -inf/+inf/nan and inf*0 (C10_value_rule, C10_value_threshold, C10_threshold_cases)"),
         ("F", "sum rule: discarded tail = longest tail whose squared weight (over the total when sum_renorm) does not exceed "
               "total_tol**2, same clamp and fallback; all-zero spectrum keeps one value (C10_sum_rule, C10_all_zero)"),
-        ("F", "renorm: prefix times sum(s)/sum(kept) under the guard sum(kept) != 0, l1 weight restored; outside the guard "
-              "(only the all-zero spectrum) the result is not finite (C10_renorm_scales, C10_renorm_sum, C10_renorm_guard, "
-              "C10_renorm_guard_zero_only, C10_no_renorm)"),
+        ("F", "renorm: prefix times sum(s)/sum(kept) when sum(kept) != 0, l1 weight restored; when sum(kept) = 0 (only the "
+              "all-zero spectrum) the kept values come back unchanged; the number of values never changes (C10_renorm_scales, "
+              "C10_renorm_sum, C10_renorm_guard, C10_renorm_guard_zero_only, C10_no_renorm, C10_renorm_length)"),
         ("F", "parameter validation: accepted iff max_bond_dim is inf or a positive int and each tolerance is >= 0 or infinite "
               "(or nan); TypeError exactly for non-int non-inf (C10_params_validation, C10_params_type_error, C10_params_bond_ok)"),
         ("F", "scalar step of the error bound: sum of squares of the discarded values <= (their sum)^2 (C10_discarded_weight)"),
@@ -389,28 +386,6 @@ class C10(Prop):
         "parameters outside the validated domain (negative finite tolerances, max_bond_dim=0, nan) are only reachable by "
         "assigning dataclass attributes after construction; they are tied to the model but outside the property oracle",
     ]
-
-    _flag_renorm_zero = None
-    _flag_norm_rounding = None
-
-    # ----------------------------------------------------------------------------------------
-    def flag_renorm_zero(self):
-        """The all-zero spectrum with renorm=True yields [nan]. DESIGN.md puts it outside the guard; it is
-        flagged as a property violation only once the lead has recorded it in known_findings.json (then
-        status 'known' suppresses it as KNOWN-FINDING and status 'fixed' makes a regression fail)."""
-        if self._flag_renorm_zero is None:
-            self._flag_renorm_zero = any(k.get("id") == FINDING_RENORM_ZERO for k in load_known())
-        return self._flag_renorm_zero
-
-    def flag_norm_rounding(self):
-        """_sum_truncation_index normalises by np.linalg.norm(s)**2, which is not the exact sum of squares when
-        the norm is irrational; at an exact boundary tail_weight/total == total_tol**2 the comparison then goes
-        either way (witness s=[3,1,1,1], total_tol=0.5: [3,1] kept, the rule gives [3]). Such inputs are kept out
-        of the exact tie ('fuzzy' cases); a deviation from the exact rule on them is counted, and flagged as a
-        violation only once the lead has recorded the finding in known_findings.json."""
-        if self._flag_norm_rounding is None:
-            self._flag_norm_rounding = any(k.get("id") == FINDING_NORM_ROUNDING for k in load_known())
-        return self._flag_norm_rounding
 
     # ----------------------------------------------------------------------------------------
     def _sv_case(self, s, mbd, rel, tot, renorm, sum_trunc, sum_renorm):
@@ -913,11 +888,6 @@ class C10(Prop):
         trunc_m = [self._fr(x) for x in trunc_m]
         if [Fraction(x) for x in ob["trunc"]] != trunc_m:
             return f"s_trunc: implementation {ob['trunc']}, model {[str(x) for x in trunc_m]}"
-        if new_m is None:
-            if ob["new"] and not all(math.isfinite(x) for x in ob["new"]):
-                return None
-            return f"new_s: model says not finite (sum of kept = 0 under renorm), implementation {ob['new']}"
-        new_m = new_m[1] if (isinstance(new_m, tuple) and new_m and new_m[0] == "Some") else new_m
         new_m = [self._fr(x) for x in new_m]
         if len(new_m) != len(ob["new"]):
             return f"new_s: implementation {ob['new']}, model {[str(x) for x in new_m]}"
@@ -1003,21 +973,17 @@ class C10(Prop):
                 self.boundary_dev["as the exact rule"] += 1
             elif k in wide:
                 self.boundary_dev["other side of an exact boundary (sqrt rounding)"] += 1
-                if self.flag_norm_rounding():
-                    return (f"norm-rounding: keeps {k} value(s) {new} of {[str(x) for x in s]}; in exact arithmetic the "
-                            f"rule gives {sorted(ks)}")
             ks = wide
         if k not in ks:
             return f"keeps {k} value(s) {new} of {[str(x) for x in s]}; the rule gives {sorted(ks)}"
         if [Fraction(x) for x in trunc] != s[k:]:
             return f"second component {trunc} is not the complementary suffix {[str(x) for x in s[k:]]}"
         kept = s[:k]
+        if not all(math.isfinite(x) for x in new):
+            return f"returns non-finite values {new} for the spectrum {[str(x) for x in s]}"
         if case["renorm"]:
-            if sum(kept) == 0:
-                if self.flag_renorm_zero() and not all(math.isfinite(x) for x in new):
-                    return f"renorm-zero: renormalising the all-zero spectrum returns {new}"
-                return None                   # outside the guard of the renormalisation clause
-            fac = sum(s) / sum(kept)
+            # an all-zero kept part cannot be rescaled: it has to come back as it is
+            fac = sum(s) / sum(kept) if sum(kept) != 0 else Fraction(1)
             for a, b in zip(new, kept):
                 if not math.isfinite(a) or abs(Fraction(a) - b * fac) > Fraction(1, 10 ** 12) * max(1, b * fac):
                     return f"renormalised values {new} != prefix * sum(s)/sum(kept) = {[str(x * fac) for x in kept]}"
@@ -1113,9 +1079,9 @@ class C10(Prop):
         if ob["u_shape"] != ob["exp_u_shape"] or ob["vh_shape"] != ob["exp_vh_shape"]:
             return f"U/Vh shapes {ob['u_shape']}, {ob['vh_shape']} for {k} kept values, expected {ob['exp_u_shape']}, {ob['exp_vh_shape']}"
         fac = 1.0
-        if case["renorm"]:
-            if sum(s0[:k]) == 0:
-                return None
+        if not all(math.isfinite(x) for x in ob["s"]):
+            return f"returns non-finite singular values {ob['s']}"
+        if case["renorm"] and sum(s0[:k]) != 0:
             fac = sum(s0) / sum(s0[:k])
         if any(abs(a - fac * b) > 1e-10 * scale for a, b in zip(ob["s"], s0[:k])):
             return f"returned values {ob['s']} are not {'the rescaled ' if case['renorm'] else ''}leading singular values {s0[:k]}"
@@ -1152,12 +1118,4 @@ class C10(Prop):
         return self._oracle_tree(case, ob)
 
     def classify(self, case, what, known):
-        if case["kind"] == "sv" and "renorm-zero:" in what:
-            return FINDING_RENORM_ZERO
-        if case["kind"] == "sv" and "norm-rounding:" in what and case.get("fuzzy"):
-            return FINDING_NORM_ROUNDING
-        if case["kind"] == "sv" and what.startswith("tie:") and "not finite" in what and case["renorm"]:
-            s = [Fraction(x) for x in case["s"]]
-            if s and all(x == 0 for x in s):
-                return FINDING_RENORM_ZERO
         return None
